@@ -330,6 +330,45 @@ def gen_invalid(ctx, rng):
     ctx.violation("invalid-accepted", f"invalid specification ({how}) {spec!r} as {typ} was accepted: {ads}", case, klass=how)
 
 
+def probe_indels(ad, ex, problems, txt):
+    """'indels' (the default, or given against a global --no-indels) means that an occurrence with one base missing is
+    found as soon as one error is allowed - for every adapter type, anchored ones included."""
+    seq = ex["seq"]
+    if not ex["indels"] or len(seq) < 6 or ex["fa"]:
+        return
+    # only the types that cannot skip the beginning of the adapter: for the others the aligner keeps one start position per
+    # cell and may keep the one that fails the error-rate test (the restriction C02 states)
+    if ex["cls"].__name__ not in ("BackAdapter", "NonInternalBackAdapter", "SuffixAdapter", "PrefixAdapter", "RightmostFrontAdapter"):
+        return
+    if ex["aw"]:
+        core = "".join((R.IUPAC[c][0] if R.IUPAC.get(c) else "A") for c in seq)
+        eff = len(seq) - seq.count("N")
+    else:
+        if ex["rw"] and not set(seq) <= set("ACGT"):
+            return            # with read wildcards on, a literal code in the adapter is not what the same code in the read means
+        core = seq            # every character is literal (also an N under -N)
+        eff = len(seq)
+    if int(ex["rate"] * eff) < 1 or ex["o"] > len(seq) - 1 and ex["cls"].__name__ not in ("PrefixAdapter", "SuffixAdapter"):
+        return
+    cand = [p for p in range(2, len(core) - 2) if core[p] != core[p - 1] and core[p] != core[p + 1]]
+    if not cand:
+        return
+    p = cand[len(cand) // 2]
+    damaged = core[:p] + core[p + 1:]
+    flank_l, flank_r = "GTCAGTCAGT", "TGACTGACTG"
+    name = ex["cls"].__name__
+    if name in ("PrefixAdapter", "NonInternalFrontAdapter"):
+        read = damaged + flank_r
+    elif name in ("SuffixAdapter", "NonInternalBackAdapter"):
+        read = flank_l + damaged
+    else:
+        read = flank_l + damaged + flank_r
+    m = ad.match_to(read)
+    if m is None:
+        problems.append(("behaviour", f"{txt}: indels are allowed and {int(ex['rate'] * eff)} error(s) are, but the occurrence with one base missing in "
+                         f"{read!r} (adapter {core!r} without position {p}) is not found"))
+
+
 def probe_anywhere(ad, ex, problems, txt):
     """';anywhere' on a 5' (3') adapter: partial matches at the end that is usually not allowed are found too (guide,
     search parameters). Probe: an error-free adapter prefix at the 3' end of the read (suffix at the 5' end)."""
@@ -398,6 +437,8 @@ def gen_and_check(ctx, rng):
                     probe_behaviour(ads[0], ex, problems, spec)
                 if not problems:
                     probe_anywhere(ads[0], ex, problems, spec)
+                if not problems:
+                    probe_indels(ads[0], ex, problems, spec)
         elif mode < 0.75:
             if typ == "anywhere":
                 typ = "back"
